@@ -159,13 +159,21 @@ Lemma np_image n : np (image_from_node pf64 fdiv n).
 Proof. unfold image_from_node, opt_node. np_tac. Qed.
 Hint Resolve np_image : np.
 
-Lemma np_root d : np (root_from_document pf64 d).
-Proof. unfold root_from_document, req_node. np_tac. Qed.
-Lemma np_pointclouds d : np (pointclouds_from_document pf64 pf32 d).
-Proof. unfold pointclouds_from_document, vec_from_document. np_tac. Qed.
-Lemma np_images d : np (images_from_document pf64 fdiv d).
-Proof. unfold images_from_document. np_tac. Qed.
-Hint Resolve np_root np_pointclouds np_images : np.
+Lemma np_e57_root d : root_element d <> None -> np (e57_root d).
+Proof. unfold e57_root. intros H. destruct (root_element d); [apply np_ok|contradiction]. Qed.
+
+Lemma np_root d : root_element d <> None -> np (root_from_document pf64 d).
+Proof. intros H. unfold root_from_document, req_node. apply np_bind; [apply np_e57_root; exact H|intros o]. np_tac. Qed.
+Lemma np_pointclouds d : root_element d <> None -> np (pointclouds_from_document pf64 pf32 d).
+Proof.
+  intros H. unfold pointclouds_from_document, vec_from_document.
+  apply np_bind; [apply np_e57_root; exact H|intros o]. np_tac.
+Qed.
+Lemma np_images d : root_element d <> None -> np (images_from_document pf64 fdiv d).
+Proof.
+  intros H. unfold images_from_document, vec_from_document.
+  apply np_bind; [apply np_e57_root; exact H|intros o]. np_tac.
+Qed.
 
 Lemma np_extensions d : root_element d <> None -> np (extensions_from_document d).
 Proof.
@@ -178,9 +186,9 @@ Theorem extract_all_no_panic_proof d :
   root_element d <> None -> extract_all pf64 pf32 fdiv d <> Panic.
 Proof.
   intros H. change (np (extract_all pf64 pf32 fdiv d)). unfold extract_all.
-  apply np_bind; [apply np_root|intros r].
-  apply np_bind; [apply np_pointclouds|intros pcs].
-  apply np_bind; [apply np_images|intros ims].
+  apply np_bind; [apply np_root; exact H|intros r].
+  apply np_bind; [apply np_pointclouds; exact H|intros pcs].
+  apply np_bind; [apply np_images; exact H|intros ims].
   apply np_bind; [apply np_extensions; exact H|intros e]. apply np_ok.
 Qed.
 
@@ -193,24 +201,9 @@ Proof.
   destruct (extract_all pf64 pf32 fdiv d) as [m|k|]; [left; eauto|right; eauto|contradiction].
 Qed.
 
-Lemma no_elem_no_desc nm l :
-  (forall n, In n l -> is_element n = false) -> find (has_tag_name nm) (flat_map descendants l) = None.
-Proof.
-  induction l as [|x l IH]; intros H; [reflexivity|]. cbn [flat_map]. rewrite find_app.
-  pose proof (H x (or_introl eq_refl)) as Hx.
-  destruct x; try discriminate; cbn [descendants find has_tag_name]; apply IH; intros n Hn; apply H; right; exact Hn.
-Qed.
-
-(** a document without root element (never produced by the parser): the error of the root lookup
-    comes first, the [expect] of [root_element] is not reached *)
-Lemma extract_all_no_root d : root_element d = None -> extract_all pf64 pf32 fdiv d = Err EInvalid.
-Proof.
-  intros H. unfold extract_all, root_from_document, req_node, find_doc_desc.
-  assert (E : find (has_tag_name [101; 53; 55; 82; 111; 111; 116]) (doc_descendants d) = None).
-  { unfold root_element in H. unfold doc_descendants. apply no_elem_no_desc.
-    intros n Hn. destruct (is_element n) eqn:En; [|reflexivity].
-    exfalso. eapply find_none in H; [|exact Hn]. congruence. }
-  rewrite E. reflexivity.
-Qed.
+(** a document without root element (never produced by the parser) is the one case in which the
+    model panics: [Document::root_element] is an [expect] *)
+Lemma extract_all_no_root d : root_element d = None -> extract_all pf64 pf32 fdiv d = Panic.
+Proof. intros H. unfold extract_all, root_from_document, e57_root. rewrite H. reflexivity. Qed.
 
 End Total.
